@@ -26,6 +26,8 @@ def make_case(rng: random.Random, hostile_rows: bool = False) -> Dict[str, Any]:
         p_earn=rng.choice((0.3, 0.5)),
         shuffle_rows=True,
         mixed_tz=rng.random() < 0.35,
+        p_optional_fiat=rng.choice((0.15, 0.15, 0.5)),
+        p_rounded_out_total=0.6,
     )
     hists = cli_histories(rng, n_assets, profile)
     shape = rng.random()
@@ -128,7 +130,7 @@ def run_case(ctx: Any, expected: Expected, case: Dict[str, Any], name: str, what
     try:
         hists = copy.deepcopy(case["hists"])
         ini_methods = {int(k): v for k, v in case["ini_methods"].items()} or None
-        ws.write(hists, accounting_methods=ini_methods)
+        ws.write(hists, accounting_methods=ini_methods, layout=case.get("layout"))
         window_args = (["-f", case["from"]] if case.get("from") else []) + (["-t", case["to"]] if case.get("to") else [])
         res = ws.run(case["country"], case["args"] + window_args, audit=False)
         ctx.count("executions")
